@@ -66,6 +66,17 @@ CLAIMS = {
              "Theorems: params = last set values through all transformations incl. eager sites; usize conversions; is_sequential iff "
              "Max(1); " + K3 + "params()/is_sequential()/type name compared on every case (setters before and after the chain).",
              "DESIGN.md 5 C12"),
+    "C13": c("Coq proof on the ownership model of the unsafe islands (every schedule) + canary-item correspondence",
+             "Theorems: for every schedule every element of an owning source is moved out exactly once or dropped in place exactly "
+             "once (first skip_to_end / iterator Drop / draining chunk iterator), never both; the merge reads every (key,value) "
+             "exactly once; every bag slot is written exactly once; fragments hold every value once. K6: canary items with "
+             "per-item drop counts through every terminal x owning sources x params in child processes. Partial: real memory is a "
+             "runtime fact; safe Rust between the islands is assumed linear (compiler guarantee).", "DESIGN.md 5 C13"),
+    "C14": c("Coq proof on the ownership model with panicking closures (every schedule) + panic-injection correspondence",
+             "Theorems: a worker that processed a panicking position is dead (never swallowed); fair continuation completes (no "
+             "hang); source accounting holds with arbitrary panics; the guarded bag drops nothing on unwind (unguarded policy "
+             "refuted). K6: panic injected at every kind of closure call: outcome must be a panic, no item dropped twice, no "
+             "never-initialised memory dropped, process must not abort. Partial as C13.", "DESIGN.md 5 C14"),
     "C15": c("Coq proof of totality of the checked-usize settings arithmetic + differential correspondence",
              "Theorems: no checked usize operation overflows/underflows/divides by zero within the stated bounds, resolved settings "
              ">= 1; K1 including which inputs panic; K3: every parallel result equals the specification and no terminal panics over "
@@ -77,4 +88,4 @@ CLAIMS = {
 }
 
 _PENDING = "check under construction in this round (Coq model layer not yet built); the property is decidable by the technique, see DESIGN.md section 5"
-NOT_APPLICABLE = {p: _PENDING for p in ["C13", "C14"]}
+NOT_APPLICABLE = {}
